@@ -8,6 +8,16 @@ NOTE = ("Trusted: Lean 4.33 kernel (axioms per theorem audited, allowed propext/
 CORR = ("Correspondence: Tie A certificates (every reachable state x 256 bytes x both anchorings of every real build, checked by the "
         "Lean-proved certOk against the ideal automaton / the noncontiguous NFA) and Tie B differential lines (harness vs acdrv).")
 CHECKS = {
+ "C19": ("proof",
+         "C19_transitions (at most one next_state call per byte of the span, whatever the prefilter does), C19_step_potential / "
+         "hops_potential (every failure hop is paid by a decrease of trie depth), C19_fails_le / C19_search (failure-link traversals "
+         "<= transitions <= span length, for every pattern list, haystack, match kind, prefilter and with case folding), C19_anchored "
+         "(none when anchored), C19_hops_sound (the hop counter and the closed-form next state describe the same failure chain), "
+         "C19_result (the counters do not influence the result), C19_overlap_* for the overlapping loop. Tie: cfg-guarded counters in the "
+         "real search loops and in both NFA next_state loops; per search the two real counters must EQUAL the model's (DFA: 0 fails), and "
+         "the dump walk records the failure traversals of every (state, byte) next_state call, compared with the model's chain length by "
+         "the certificate step (contiguous NFA against noncontiguous, DFA against zero).", "5 C19",
+         "Lean potential-function proof on the ideal automaton with explicit failure links + exact counter equality against instrumented code"),
  "C06": ("proof",
          "C06_rabinkarp, C06_teddy, C06_packed, C06_iter: for every non-empty pattern list without empty patterns, both packed match "
          "kinds, every variant (Rabin-Karp; slim Teddy 128/256-bit incl. the 128-bit fallback; fat Teddy; 1-4 byte fingerprints), every "
